@@ -11,6 +11,8 @@ PROPS[R01]="C12 C06"; PROPS[R02]="C06 C11 C02 C19 C10"; PROPS[R03]="C17 C15 C09 
 PROPS[R05]="C07 C08 C12 C17 C18 C01 C13 C14"; PROPS[R06]="C13 C14 C09 C01 C20"; PROPS[R07]="C04 C05 C01 C03 C10 C02"
 PROPS[R08]="C02 C03 C05 C10 C01 C20 C14"; PROPS[R09]="C06 C11 C02 C04 C19 C10 C14"; PROPS[R10]="C15 C16 C18 C10 C19 C17"
 PROPS[R11]="C17 C18 C13 C08"; PROPS[R12]="C19 C20 C14 C13 C01 C05 C10"
+PROPS[R13]="C10 C11 C13 C19 C04 C05 C14 C20 C02 C03"; PROPS[R14]="C12 C06 C07 C08 C09 C17 C15 C01"; PROPS[R15]="C04 C05 C10 C13 C19 C20 C11 C18 C02 C03"
+PROPS[R16]="C16 C11 C09 C06 C02 C19 C15"; PROPS[R17]="C01 C02 C03 C05 C10 C14 C20"; PROPS[R18]="C17 C07 C08 C12 C18 C13 C14 C09 C01"
 jobs=/tmp/matrix_jobs.$$; : > $jobs
 for d in seeded/C*; do
   s=$(basename $d); p=${s%%-*}
